@@ -23,7 +23,8 @@ func init() {
 		Gen:   genC15,
 		Rule: "one object kind per run (queue/handler/actor/pool/cor) drawn from the scenario tape with 1..N user threads and one closer; " +
 			"a run is non-trivial when the close was invoked while at least one user call was in flight or still to come and >=1 context switch happened inside the object's code; " +
-			"distinct = distinct (kind, context-switch signature)",
+			"distinct = distinct (kind, context-switch signature)" +
+			" Flavours: Close issued from inside a posted function / by a quit message (handler, actor), finishing coroutine as target or as requester, crowd of requesters, pool with the job queue left open.",
 		Real: []string{"fpgo.BufferedChannelQueue (loader, free-node goroutines)", "fpgo.Handler", "fpgo.Actor", "worker.DefaultWorkerPool", "fpgo.Cor", "Go channels/mutexes/timers on the fake clock"},
 		Stub: []string{"goroutine scheduler", "clock", "sync.Pool"},
 	})
